@@ -276,6 +276,20 @@ def check_matrices(ctx, c):
     lmax = float(ev[-1])
     ctx.resolve("min_eig_over_n_eps_lmax", max(0.0, -float(ev[0]) / (pts.shape[1] * EPS * lmax)))
     if ev[0] < -8 * pts.shape[1] * EPS * lmax:
+        # "beyond rounding" includes the rounding of the entries themselves: the evaluation error of the correlation function
+        # (special functions next to poles, e.g. exponential integrals of nearly integer order, are good to ~1e-11, not to an ulp)
+        # is measured against the arbitrary-precision closed form on a sample of the lags of this matrix
+        desc = {"name": name, "dim": int(model.dim), "len_scale": float(model.len_scale), "opt": {o: float(getattr(model, o)) for o in model.opt_arg},
+                "rescale": float(model.rescale)}
+        iu = np.triu_indices(pts.shape[1], 1)
+        riso = np.sqrt(np.sum(np.asarray(model.isometrize(diff.reshape(dim, -1))) ** 2, axis=0)).reshape(pts.shape[1], pts.shape[1])[iu]
+        sample = riso[rng.choice(riso.size, size=min(40, riso.size), replace=False)]
+        with np.errstate(all="ignore"):
+            dfun = max(abs(float(np.asarray(model.correlation(np.array([r])))[0]) - float(ocov.correlation(desc, float(r)))) for r in sample)
+        ctx.resolve("entry_evaluation_error", dfun)
+        if dfun <= 1e-9 and ev[0] >= -(8 * pts.shape[1] * EPS * lmax + 4 * pts.shape[1] * float(model.var) * dfun):
+            ctx.event("eigenvalue_within_entry_rounding")
+            return
         ctx.fail({"what": "covariance-matrix-indefinite", "model": name, "dim": dim, "points": kind},
                  f"{name} {opt} dim {dim} ({kind}, n={pts.shape[1]}): smallest eigenvalue {ev[0]:.3e}, largest {lmax:.3e}")
         return
